@@ -54,8 +54,10 @@ func (fs *FS) addMount(p string, mountFS hackpadfs.FS) error {
 		// cannot mount at same point as existing mount
 		return hackpadfs.ErrExist
 	}
+	verifStep("prechecked", mountFS)
 	fs.mountMu.Lock()
 	defer fs.mountMu.Unlock()
+	verifStep("locked", mountFS)
 
 	dir, base := path.Dir(p), path.Base(p)
 	parentFS, subPath := fs.Mount(dir) // get this mount point's parent mount, verify dir exists
@@ -72,6 +74,7 @@ func (fs *FS) addMount(p string, mountFS hackpadfs.FS) error {
 		return hackpadfs.ErrNotDir
 	}
 	// TODO Handle data race when directory is removed or becomes a file between the Stat and the mount.
+	verifStep("checked", mountFS)
 
 	_, loaded = fs.mounts.LoadOrStore(p, mountFS)
 	if loaded {
